@@ -844,6 +844,37 @@ Proof.
   repeat split; try done. exists s. repeat split; try done. intros m sm Hm. by eapply children_nil.
 Qed.
 
+(* the executable delete guard of law 105 means the clause *)
+Lemma delete_guardb_sound c Q n :
+  delete_guardb c Q (Delete n) = true ->
+  n <> root /\ n <> default_q /\
+  exists s, Q !! n = Some s /\ (alloc_check c = true -> qalloc s = 0) /\
+            forall m sm, Q !! m = Some sm -> qparent sm <> Some n.
+Proof.
+  unfold delete_guardb. rewrite !andb_true_iff, !negb_true_iff, !bool_decide_eq_false.
+  intros [[Hr Hd] H]. split; [done|]. split; [done|].
+  destruct (Q !! n) as [s|]; [|done]. apply andb_true_iff in H as [Ha Hk].
+  exists s. split; [done|]. split.
+  - intros Hf. rewrite Hf in Ha. simpl in Ha. by apply bool_decide_eq_true in Ha.
+  - intros m sm Hm Hp. rewrite forallb_forall in Hk.
+    assert (In (m, sm) (map_to_list Q)) as Hin by by apply elem_of_list_In, elem_of_map_to_list.
+    specialize (Hk _ Hin). simpl in Hk. apply negb_true_iff, bool_decide_eq_false in Hk. done.
+Qed.
+
+(* ... and the admitted DELETE satisfies it (completeness of the guard on the model's verdict) *)
+Lemma delete_guardb_complete c Q n :
+  verdict_of c Q (Delete n) = VAllowed -> delete_guardb c Q (Delete n) = true.
+Proof.
+  intros H. apply delete_guard in H as (Hr & Hd & s & Hn & Ha & Hk).
+  unfold delete_guardb. rewrite Hn.
+  rewrite (bool_decide_eq_false_2 (n = root)), (bool_decide_eq_false_2 (n = default_q)) by done. simpl.
+  apply andb_true_iff. split.
+  - destruct (alloc_check c); simpl; [|done]. apply bool_decide_eq_true. by apply Ha.
+  - apply forallb_forall. intros [m sm] Hin. simpl.
+    apply negb_true_iff, bool_decide_eq_false.
+    apply elem_of_list_In, elem_of_map_to_list in Hin. by apply (Hk m sm).
+Qed.
+
 Lemma protected_step c Q r n :
   n = root \/ n = default_q -> is_Some (Q !! n) -> is_Some (apply_if_admitted c Q r !! n).
 Proof.
@@ -1426,6 +1457,32 @@ Example ex_history_verdicts :
   [VAllowed; VAllowed; VSiblingSum; VAllowed; VSpec; VAllowed; VAllowed; VCycle; VRootParent; VAllowed; VAllowed;
    VCapAncestor; VAllowed; VDelChildren].
 Proof. by vm_compute. Qed.
+
+(* the deletion clause "a queue that has allocated pods is not deleted" in the DEFAULT configuration
+   (EnableQueueAllocatedPodsCheck = false, options.go): refuted on the current code — queue 5 of
+   ex_Q with 3 allocated pods is deleted (known finding C10-delete-allocated-pods-flag-off) *)
+Definition default_cfg : cfg := mkCfg 5 false true.
+
+Theorem delete_allocated_without_flag_refuted :
+  exists c Q n s, TreeInv c Q /\ alloc_check c = false /\ Q !! n = Some s /\ qalloc s <> 0 /\
+                  verdict_of c Q (Delete n) = VAllowed /\ (apply_if_admitted c Q (Delete n)) !! n = None.
+Proof.
+  exists default_cfg, (apply_req ex_Q (EnvStatus 5%positive 3 (-1))), 5%positive,
+         (with_status 3 0 (q_ (Some 4%positive) [] (cpu_l 1000) (cpu_l 1000))).
+  split; [apply tree_okb_sound; by vm_compute|]. split; [done|]. split; [by vm_compute|].
+  split; [done|]. split; by vm_compute.
+Qed.
+
+(* with the flag on it is refused *)
+Example delete_allocated_with_flag_refused :
+  verdict_of ex_cfg (apply_req ex_Q (EnvStatus 5%positive 3 (-1))) (Delete 5%positive) = VDelAllocated.
+Proof. by vm_compute. Qed.
+
+(* the bootstrap queue set {root, default} of a fresh cluster satisfies the invariant *)
+Example bootstrap_tree_inv :
+  TreeInv default_cfg (list_to_map [(root, q_ None [] [] []); (default_q, q_ (Some root) [] [] [])]) /\
+  TreeInv default_cfg (list_to_map [(root, q_ None [] [] []); (default_q, q_ None [] [] [])]).
+Proof. split; apply tree_okb_sound; by vm_compute. Qed.
 
 (* F3, first half: the validation as it was before the fix admits a.parent := c on
    root <- a <- b <- c, and the result is not a tree *)
